@@ -27,10 +27,10 @@ def main():
     rows = []
     for f in sorted(glob.glob(os.path.join(V, 'evidence', 'C*.json'))):
         e = json.load(open(f)); c = e['coverage']
-        rows.append('| %s | %s | %d / %d | %d | %.1f | %.0f | %s |' % (e['property_id'], e['tier'], c['discharged'], c['obligations'], c.get('solver_queries', 0), c.get('solver_time_s', 0), e.get('wall_s', 0), NOTES.get(e['property_id'], '')))
+        rows.append('| %s | %s | %d / %d | %d + %d | %.1f | %.0f | %s |' % (e['property_id'], e['tier'], c['discharged'], c['obligations'], c.get('solver_queries', 0), c.get('path_feasibility_queries', 0), c.get('solver_time_s', 0) + c.get('path_feasibility_time_s', 0), e.get('wall_s', 0), NOTES.get(e['property_id'], '')))
     text = '''### 8.2 Per property: what runs, measured (unchanged tree, 16 cores; generated from evidence/*.json by `python3-vt -m gv.measured`)
 
-| id | tier | discharged / obligations | solver queries | solver s | wall s | what the obligations are |
+| id | tier | discharged / obligations | solver queries (goal + path feasibility) | solver s | wall s | what the obligations are |
 |----|------|--------------------------|----------------|----------|--------|--------------------------|
 %s
 
